@@ -121,6 +121,7 @@ func runScript(t *testing.T, sc bScript, out *bOutcomes, trace bool) (hist []str
 
 type scriptStats struct {
 	ran      int64
+	distinct int64 // distinct executed (configuration, low-level history) pairs
 	events   int64
 	complete bool
 }
@@ -130,6 +131,8 @@ func runScripts(t *testing.T, rep *vx.Report, part string, scripts []bScript, ou
 	var ran, events int64
 	var capped atomic.Bool
 	var wg sync.WaitGroup
+	var seenMu sync.Mutex
+	seen := map[string]struct{}{}
 	for w := 0; w < vx.Workers(); w++ {
 		wg.Add(1)
 		go func() {
@@ -146,6 +149,12 @@ func runScripts(t *testing.T, rep *vx.Report, part string, scripts []bScript, ou
 				hist, err := runScript(t, scripts[i], out, false)
 				atomic.AddInt64(&ran, 1)
 				atomic.AddInt64(&events, int64(len(hist)))
+				if len(hist) > 0 {
+					k := scripts[i].Cfg.String() + "|" + strings.Join(hist, " ")
+					seenMu.Lock()
+					seen[k] = struct{}{}
+					seenMu.Unlock()
+				}
 				if err != nil {
 					report(rep, part, scripts[i].Cfg, hist, err)
 				}
@@ -153,7 +162,7 @@ func runScripts(t *testing.T, rep *vx.Report, part string, scripts []bScript, ou
 		}()
 	}
 	wg.Wait()
-	return scriptStats{ran: ran, events: events, complete: !capped.Load()}
+	return scriptStats{ran: ran, distinct: int64(len(seen)), events: events, complete: !capped.Load()}
 }
 
 var repMu sync.Mutex
@@ -421,8 +430,8 @@ func TestVerifC15(t *testing.T) {
 	tB := time.Now()
 	bst := runScripts(t, rep, "B", bScripts, out, bDeadline)
 	wallB := time.Since(tB).Seconds()
-	rep.Count(bst.ran, bst.ran, 0, bst.events)
-	rep.Set("part_B", map[string]any{"contents": nContents, "scripts": len(bScripts), "scripts_run": bst.ran, "events_applied": bst.events, "completed": bst.complete, "wall_s": wallB})
+	rep.Count(bst.ran, bst.distinct, 0, bst.events)
+	rep.Set("part_B", map[string]any{"contents": nContents, "scripts": len(bScripts), "scripts_run": bst.ran, "distinct_executed_histories": bst.distinct, "events_applied": bst.events, "completed": bst.complete, "wall_s": wallB})
 	exhaustive = exhaustive && bst.complete
 	if len(bScripts) > 0 {
 		rep.AddSample(map[string]any{"part": "B", "cfg": bScripts[len(bScripts)/2].Cfg.String(), "steps": bScripts[len(bScripts)/2].Steps})
@@ -436,8 +445,8 @@ func TestVerifC15(t *testing.T) {
 	tC := time.Now()
 	cst := runScripts(t, rep, "C", cScripts, out, cDeadline)
 	wallC := time.Since(tC).Seconds()
-	rep.Count(cst.ran, cst.ran, 0, cst.events)
-	rep.Set("part_C", map[string]any{"layouts": nLayouts, "scripts": len(cScripts), "scripts_run": cst.ran, "events_applied": cst.events, "completed": cst.complete, "wall_s": wallC})
+	rep.Count(cst.ran, cst.distinct, 0, cst.events)
+	rep.Set("part_C", map[string]any{"layouts": nLayouts, "scripts": len(cScripts), "scripts_run": cst.ran, "distinct_executed_histories": cst.distinct, "events_applied": cst.events, "completed": cst.complete, "wall_s": wallC})
 	exhaustive = exhaustive && cst.complete
 	if len(cScripts) > 0 {
 		rep.AddSample(map[string]any{"part": "C", "cfg": cScripts[len(cScripts)/3].Cfg.String(), "steps": cScripts[len(cScripts)/3].Steps})
